@@ -4,7 +4,7 @@ from ..paths import explore, describe, bool_label, pretty_place
 from ..rules import calls_to, calls_where, order_ok, blocks_of, bool_edges, self_field_of_call
 from ..facts import callee_path, operand_place, trace, op_local, is_place
 
-TEXT = ("Per-chunk ordering modulators ≺ clocks ≺ listeners ≺ mixer with the same dt·frames advance; the path predicate of Info::when_to_start (Never iff the clock is gone; Now only when ticking and clock time >= target); generation-checked clock lookup; Never cancels (StartTime::update true only on Never); clock-timed tweens start only on Now; and the torn-read shape: a struct whose logical value is published through two independent atomics, read back with two independent loads into one value while another function stores both, without a sequence protocol. Exact tick arithmetic and the set of interleavings are not decided. StartTime::update turns a delay / clock time into Immediate exactly when it is due and reports a removed clock. The clock's running flag is written only where the set_ticking command is applied (a reset does not stop the clock); the divisions of the clock-speed unit conversions are obligations (A.singular). A tween between two clock-speed units interpolates in the target's unit; ClockTime does not override the comparison operators derived from partial_cmp; a ClockTime converted into a StartTime stays a ClockTime; clocks are advanced in creation order; ClockHandle commands are written on every path. The clock does not run on a cached copy of its speed: a field derived from a parameter is recomputed after every update of that parameter. Every running sum of the time step is an f64; what the clock publishes for its handle crosses threads at full width (f64 bits); a delayed start is counted down by exactly Duration::from_secs_f64(dt). A resume waiting for a clock that no longer exists ends in Stopped for a sound. Retired clocks are taken out of the hand-back ring by the game thread on every insertion (drain / sweep rules of C08); the callback drains the mixer's queues before the clocks' (a sound is never picked up before the clock it is scheduled on). The clock's speed parameter is handed its command reader (a command naming the current speed still replaces a pending tween); a tweener's set starts its transition on every path. What a tween carries from one update to the next lives in its state or is reset by set (a second set while a tween runs starts from scratch).")
+TEXT = ("Per-chunk ordering modulators ≺ clocks ≺ listeners ≺ mixer with the same dt·frames advance; the path predicate of Info::when_to_start (Never iff the clock is gone; Now only when ticking and clock time >= target); generation-checked clock lookup; Never cancels (StartTime::update true only on Never); clock-timed tweens start only on Now; and the torn-read shape: a struct whose logical value is published through two independent atomics, read back with two independent loads into one value while another function stores both, without a sequence protocol. Exact tick arithmetic and the set of interleavings are not decided. StartTime::update turns a delay / clock time into Immediate exactly when it is due and reports a removed clock. The clock's running flag is written only where the set_ticking command is applied (a reset does not stop the clock); the divisions of the clock-speed unit conversions are obligations (A.singular). A tween between two clock-speed units interpolates in the target's unit; ClockTime does not override the comparison operators derived from partial_cmp; a ClockTime converted into a StartTime stays a ClockTime; clocks are advanced in creation order; ClockHandle commands are written on every path. The clock does not run on a cached copy of its speed: a field derived from a parameter is recomputed after every update of that parameter. Every running sum of the time step is an f64; what the clock publishes for its handle crosses threads at full width (f64 bits); a delayed start is counted down by exactly Duration::from_secs_f64(dt). A resume waiting for a clock that no longer exists ends in Stopped for a sound. Retired clocks are taken out of the hand-back ring by the game thread on every insertion (drain / sweep rules of C08); the callback drains the mixer's queues before the clocks' (a sound is never picked up before the clock it is scheduled on). The clock's speed parameter is handed its command reader (a command naming the current speed still replaces a pending tween); a tweener's set starts its transition on every path. What a tween carries from one update to the next lives in its state or is reset by set (a second set while a tween runs starts from scratch). The fade-in tween of a sound's settings reaches its state machine as it is (its own clock start time is the one that counts).")
 TECHNIQUE = 'MIR ordering / path-predicate rules + atomic-group (composite read vs composite write) shape analysis + interval evaluation of singular float operations'
 
 
